@@ -415,7 +415,7 @@ func allPairs() [][2]string {
 
 func gen(g *hx.Gen) {
 	r := g.R
-	n := g.Count(600, 30000)
+	n := g.Count(600, 12000)
 
 	// the primitives alone
 	for i := 0; i < 60; i++ {
